@@ -339,6 +339,10 @@ ModEv ==
   /\ last' = [ev |-> "req", kind |-> IF "burst" \in DOMAIN e /\ e.burst THEN "mod-burst" ELSE "mod", accepted |-> acc /\ known, u |-> IF acc /\ known THEN u ELSE "-"]
   /\ Advance
 
+\* did the datapath refuse something in this step (BESS: any command error so far; UP4: an update of this step answered
+\* with anything but OK, NOT_FOUND or ALREADY_EXISTS, which the plug-in tolerates by design)
+DpFailed(e) == IF "writes" \in DOMAIN e THEN \E i \in 1..Len(e.writes) : e.writes[i].result \notin {0, 5, 6} ELSE e.errs # 0
+
 DelEv ==
   LET e == Trace[l]  p == e.peer  req == e.req  m == Main(e)
       u == req.hdr
@@ -362,7 +366,7 @@ DelEv ==
                            !.writesNothing = (Answered(e) /\ ~known => e.cmds = cmds),
                            \* the UP F-SEID returned at establishment addresses the session: a deletion that names a
                            \* live session of this peer is not refused (no datapath fault is injected in these runs)
-                           !.addressed = ~(Answered(e) /\ known /\ e.errs = 0)]
+                           !.addressed = ~(Answered(e) /\ known /\ ~DpFailed(e))]
   /\ last' = [ev |-> "req", kind |-> IF "burst" \in DOMAIN e /\ e.burst THEN "del-burst" ELSE "del", accepted |-> acc /\ known, u |-> IF acc /\ known THEN u ELSE "-"]
   /\ Advance
 
@@ -608,6 +612,14 @@ C05_NoDatapathResidue == (last.ev \in {"req", "lost", "report"} /\ NotBurst) => 
 C05_NoUp4Residue == (cfg.dp = "up4" /\ last.ev \in {"req", "lost"} /\ NotBurst /\ DOMAIN sess = {} /\ (last.kind \in {"del", "release", "-"} => last.accepted)) =>
   LET t == tables.up4 IN
   t.sessUL = {} /\ t.sessDL = {} /\ t.termUL = {} /\ t.termDL = {} /\ t.apps = {} /\ t.peers = {} /\ t.appMeters = {} /\ t.sessMeters = {}
+\* UP4: when no session is live, every identifier is back in its pool (counter cells, meter cells, tunnel peer and application IDs)
+C05_Up4PoolsRestored ==
+  (cfg.dp = "up4" /\ snap.has /\ "up4" \in DOMAIN snap /\ last.ev \in {"req", "lost"} /\ NotBurst /\ DOMAIN sess = {}
+     /\ (last.kind \in {"del", "release", "-"} => last.accepted)) =>
+  /\ snap.up4.ctrOut = <<>> /\ snap.up4.appCellOut = <<>> /\ snap.up4.sessCellOut = <<>>
+  /\ snap.up4.peerOut = <<>> /\ snap.up4.appIdOut = <<>> /\ snap.up4.meters = <<>>
+\* a session that cannot be deleted never ends: the deletion of a live session is not refused unless the datapath failed
+C05_DeletionOfLiveSessionNotRefused == chk.addressed
 C05_Applies == last.ev \in {"req", "lost", "report"} /\ NotBurst
 \* ... and everything allocated for it is returned (read from the guarded snapshot when the line carries one)
 SnapStore == UNION {AsSet(snap.store[i].seids) : i \in 1..Len(snap.store)}
@@ -660,6 +672,9 @@ C09_SessionQerSound ==
 
 \* C09 on the UP4 datapath (the traffic class and the gates are part of C04_TablesAreImage)
 C09_Up4PeakRatesAsSignalled == (OnUp4 /\ last.ev = "req" /\ last.kind \in {"estab", "mod"} /\ last.accepted) => U4!PeakRatesOK(tables.up4, sess, cfg.up4)
+
+\* ... and the gates and the traffic class as C09 states them: drop / forward, QFI and TC of every terminations entry
+C09_Up4GateAndTrafficClass == (OnUp4 /\ last.ev = "req" /\ last.kind \in {"estab", "mod"} /\ last.accepted) => U4!TermsOK(tables.up4, sess, cfg.up4)
 
 \* C10
 C10_StopCompletesWithoutPanic == chk.stopClean
